@@ -825,6 +825,9 @@ func (ex *Exec) resolveModifies(c *FuncContract, env *Env) *WriteSet {
 			ws.heaps[hn] = true
 		case m == "chan":
 			ws.heaps["CH_closed"] = true
+		case strings.HasPrefix(m, "pkg:"):
+			// every field of every struct declared in that package (also instantiations of its generic types)
+			ws.prefixes = append(ws.prefixes, "H_S_"+sanitize(strings.TrimSpace(m[4:]))+"_")
 		default:
 			// Type.field
 			i := strings.LastIndex(m, ".")
@@ -858,10 +861,21 @@ func (ex *Exec) applyHavoc(st *State, ws *WriteSet) {
 	for _, h := range sortedKeys(ws.heaps) {
 		ex.havocHeap(st, h)
 	}
+	for _, pre := range ws.prefixes {
+		for _, h := range sortedKeys(st.heap) {
+			if strings.HasPrefix(h, pre) {
+				ex.havocHeap(st, h)
+			}
+		}
+		vc.counter++
+		if st.prefixEpoch == nil {
+			st.prefixEpoch = map[string]int{}
+		}
+		st.prefixEpoch[pre] = vc.counter
+	}
 	for _, g := range sortedKeys(ws.ghost) {
 		ex.havocGhost(st, g)
 	}
-	_ = vc
 }
 
 // builtins ---------------------------------------------------------------------
